@@ -935,3 +935,115 @@ impl SubCheck for C10EdgeSub {
         Verdict::pass(at_max, cl)
     }
 }
+
+// ---------------------------------------------------------------------------
+// C10 with very long periods (around and beyond 2^64 ns, i.e. 584 years, which a
+// period kept as 64-bit nanoseconds cannot hold): occurrences at t0 + k*p exactly.
+
+#[derive(Clone, Debug, serde::Serialize, serde::Deserialize)]
+pub struct C10BigCase {
+    pub first_ns: u64,
+    pub period_secs: u64,
+    pub period_nanos: u32,
+    pub periods: u8,
+    pub keyed: bool,
+    pub steps: bool,
+    pub threads: u8,
+}
+
+pub struct C10BigSub;
+
+impl SubCheck for C10BigSub {
+    type Case = C10BigCase;
+    fn name(&self) -> &'static str {
+        "c10-long-periods"
+    }
+    fn substrate(&self) -> &'static str {
+        "ST-pick"
+    }
+    fn strategy(&self) -> BoxedStrategy<C10BigCase> {
+        let secs = prop_oneof![
+            // 2^64 ns = 18_446_744_073.709551616 s
+            3 => 18_446_744_070u64..18_446_744_080,
+            2 => (33u32..45).prop_map(|e| 1u64 << e),
+            2 => 18_446_744_074u64..400_000_000_000,
+            1 => 1u64..10,
+            1 => 4_294_967_290u64..4_294_967_300,
+        ];
+        (1u64..2_000_000_000, secs, 0u32..1_000_000_000, 1u8..5, any::<bool>(), any::<bool>(), prop_oneof![3 => Just(1u8), 1 => Just(3u8)])
+            .prop_map(|(first_ns, period_secs, period_nanos, periods, keyed, steps, threads)| C10BigCase {
+                first_ns,
+                period_secs,
+                period_nanos,
+                periods,
+                keyed,
+                steps,
+                threads,
+            })
+            .boxed()
+    }
+    fn eval(&self, c: &C10BigCase) -> Verdict {
+        use nexosim::simulation::{Mailbox, SimInit};
+        use nexosim::time::MonotonicTime;
+        use std::time::Duration;
+        let fail = |clause: &str, detail: String| Verdict::Fail {
+            signature: format!("C10/{}", clause),
+            clause: clause.to_string(),
+            detail,
+            props: &["C10", "C08"],
+        };
+        let start = MonotonicTime::EPOCH;
+        let period = Duration::new(c.period_secs, c.period_nanos);
+        let first = Duration::from_nanos(c.first_ns.max(1));
+        let n = c.periods.clamp(1, 6) as u32;
+        // horizon: just after the n-th repetition
+        let horizon = first + period * n + Duration::from_nanos(1);
+        let log = std::sync::Arc::new(std::sync::Mutex::new(Vec::new()));
+        let mb: Mailbox<EdgeModel> = Mailbox::new();
+        let addr = mb.address();
+        let r = std::panic::catch_unwind(std::panic::AssertUnwindSafe(|| {
+            let (mut sim, sched) = match SimInit::with_num_threads(c.threads.max(1) as usize)
+                .add_model(EdgeModel { log: log.clone() }, mb, "edge")
+                .init(start)
+            {
+                Ok(x) => x,
+                Err(e) => return Err(format!("init failed: {:?}", classify(&e))),
+            };
+            let mut keys = Vec::new();
+            let ok = if c.keyed {
+                sched.schedule_keyed_periodic_event(first, period, EdgeModel::on, 0u8, &addr).map(|k| keys.push(k)).is_ok()
+            } else {
+                sched.schedule_periodic_event(first, period, EdgeModel::on, 0u8, &addr).is_ok()
+            };
+            if !ok {
+                return Err(format!("a periodic request with first deadline {:?} and period {:?} was rejected", first, period));
+            }
+            if c.steps {
+                for _ in 0..=n {
+                    if let Err(e) = sim.step() {
+                        return Err(format!("step failed: {:?}", classify(&e)));
+                    }
+                }
+            } else if let Err(e) = sim.step_until(start + horizon) {
+                return Err(format!("step_until failed: {:?}", classify(&e)));
+            }
+            drop(keys);
+            Ok(())
+        }));
+        match r {
+            Err(_) => return fail("call-panicked", format!("a scheduling or stepping call panicked with period {:?}", period)),
+            Ok(Err(e)) => return fail("long-period", e),
+            Ok(Ok(())) => {}
+        }
+        let got: Vec<Duration> = log.lock().unwrap().iter().map(|(_, t)| t.duration_since(start)).collect();
+        let exp: Vec<Duration> = (0..=n).map(|k| first + period * k).collect();
+        if got != exp {
+            return fail(
+                "periodic-arithmetic-progression",
+                format!("first deadline {:?}, period {:?}: occurrences fired at {:?}, expected t0+k*p = {:?}", first, period, got, exp),
+            );
+        }
+        let beyond = period.as_nanos() > u64::MAX as u128;
+        Verdict::pass(beyond, if beyond { vec!["period>=2^64ns"] } else { vec![] })
+    }
+}
